@@ -235,6 +235,19 @@ func cmdCheck(w *World, args []string, tier string, verbose bool) int {
 		evidenceDir = filepath.Join(os.TempDir(), "govc-alt", "evidence")
 	}
 	exit := 0
+	// a query every solver rejected as ill-formed is a defect of the generator, not of the code:
+	// it is reported as such (exit status 2) and never as a violation of the property
+	internal := 0
+	kept := violations[:0]
+	for _, o := range violations {
+		if o.Answer != nil && o.Answer.Verdict == VUnknown && strings.Contains(o.Answer.Output, "(error ") && !strings.Contains(o.Answer.Output, "timeout") {
+			fmt.Printf("INTERNAL-ERROR property=%s obligation %s: the solvers rejected the generated query: %s\n", prop, o.Name, truncate(o.Answer.Output, 300))
+			internal++
+			continue
+		}
+		kept = append(kept, o)
+	}
+	violations = kept
 	for _, o := range violations {
 		path := filepath.Join(replayDir, prop+"-"+sanitize(o.Name)+".json")
 		rp := buildReplay(w, prop, o)
@@ -333,6 +346,9 @@ func cmdCheck(w *World, args []string, tier string, verbose bool) int {
 	if selftestRegressions > 0 {
 		fmt.Printf("SELFTEST-REGRESSION: %d seeded change(s) that this check used to reject are no longer rejected (see evidence.coverage.selftest_seeded_changes); the machinery, not the code, needs attention\n", selftestRegressions)
 		return 2
+	}
+	if internal > 0 && exit == 0 {
+		exit = 2
 	}
 	return exit
 }
